@@ -33,10 +33,12 @@ def build(chk):
         else:
             lens = sorted({0, 1, 2, n - 1, n - 2, n // 2, n // 2 - 1, n // 2 + 1, n // 4, n // 4 + 1, 3 * n // 4} | {rng.randrange(n) for _ in range(3 if quick else 12)})
         for ln in lens:
-            for variant in ("literal", "witness", "computed", "mixed"):
+            for variant in ("literal", "witness", "computed", "mixed", "witness-pair"):
                 if n > 16 and variant != "literal" and ln not in (0, n - 1, n // 2):
                     continue
                 if variant == "mixed" and (ln == 0 or n > 32):
+                    continue
+                if variant == "witness-pair" and n > 32:
                     continue
                 for fname, ftext, ety in (("order", F_ORDER, ("U", 3)), ("panic", F_PANIC, ("U", 3)), ("pair", F_PAIR, ("T", (("U", 2), ("B",)))), ("opt", F_OPT, ("O", ("U", 1)))):
                     if fname in ("pair", "opt") and (n > 16 or variant != "literal"):
@@ -55,6 +57,14 @@ def build(chk):
                     elif variant == "witness":
                         src = "witness::L"
                         wits.append(("L", lt, lv))
+                    elif variant == "witness-pair":
+                        # the list arrives inside a larger value, next to siblings of the element type (one witness for (init, list, extra))
+                        if fname not in ("order", "panic"):
+                            continue
+                        src = None
+                        iv, xv = rng.randrange(256), rng.randrange(256)
+                        pty = ("T", (("U", 3), lt, ("U", 3)))
+                        wits.append(("P", pty, ("t", (("u", 3, iv), lv, ("u", 3, xv)))))
                     elif variant == "mixed":
                         # a literal whose elements are partly constants, partly computed (a witness, a block, a call)
                         if fname != "order" and fname != "panic":
@@ -72,8 +82,12 @@ def build(chk):
                         src = "{ let t: (bool, List<%s, %d>) = (true, %s); match t { (b, l) => l } }" % (gen.ty_src(ety), n, gen.val_src(lv))
                         src = "{ let (b, l): (bool, List<%s, %d>) = (witness::B, %s); match b { true => l, false => list![], } }" % (gen.ty_src(ety), n, gen.val_src(lv))
                         wits.append(("B", ("B",), ("b", rng.random() < 0.8)))
-                    text = "%s\nfn main() { let l: List<%s, %d> = %s; let r: u8 = fold::<f, %d>(l, %d); assert!(jet::eq_8(r, witness::EXPECT)); }" % (
-                        ftext, gen.ty_src(ety), n, src, n, rng.randrange(256))
+                    if variant == "witness-pair":
+                        text = ("%s\nfn main() { let (i0, l, x0): (u8, List<%s, %d>, u8) = witness::P; let r0: u8 = fold::<f, %d>(l, i0); let r: u8 = jet::xor_8(r0, x0); "
+                                "assert!(jet::eq_8(r, witness::EXPECT)); }") % (ftext, gen.ty_src(ety), n, n)
+                    else:
+                        text = "%s\nfn main() { let l: List<%s, %d> = %s; let r: u8 = fold::<f, %d>(l, %d); assert!(jet::eq_8(r, witness::EXPECT)); }" % (
+                            ftext, gen.ty_src(ety), n, src, n, rng.randrange(256))
                     p = Prog(text, [(a, b) for (a, b, _) in wits] + [("EXPECT", ("U", 3))], "fold/%d/%d/%s/%s" % (k, ln, variant, fname))
                     p.fixed = [(a, c) for (a, _, c) in wits]
                     chk.count("fold.bound%d" % n)
